@@ -77,7 +77,8 @@ fn handle(
         if let Some(a) = out.actor {
             trace.renamed_conns.insert(a);
         }
-        if let Some(n) = out.sent.split(' ').nth(1) {
+        let body: &str = if out.sent.starts_with(':') { out.sent.splitn(2, ' ').nth(1).unwrap_or("").trim_start() } else { out.sent.as_str() };
+        if let Some(n) = body.split(' ').nth(1) {
             trace.renamed_nicks.insert(n.to_string());
         }
     }
@@ -179,12 +180,14 @@ pub fn run_case(spec: &MbSpec, case: &ScCase, st: &mut Stats) -> Result<(), Viol
             }
             Op::Line(c, l) => {
                 trace.lines.push(format!("c{}: {}", c, l));
-                ctx = l.split(' ').next().unwrap_or("").to_ascii_uppercase();
+                // (a client-supplied ':source' prefix is not the verb)
+                let body: &str = if l.starts_with(':') { l.splitn(2, ' ').nth(1).unwrap_or("").trim_start() } else { l.as_str() };
+                ctx = body.split(' ').next().unwrap_or("").to_ascii_uppercase();
                 if !eng.model.is_registered(*c) {
                     ctx = "REGLINE".into();
                 }
                 if ctx == "MODE" {
-                    let t = l.split(' ').nth(1).unwrap_or("");
+                    let t = body.split(' ').nth(1).unwrap_or("");
                     ctx = if t.starts_with('#') || t.starts_with('&') { "MODE#".into() } else { "MODEu".into() };
                 }
                 Some(*c)
@@ -203,8 +206,10 @@ pub fn run_case(spec: &MbSpec, case: &ScCase, st: &mut Stats) -> Result<(), Viol
                 None
             }
         };
-        if let Op::Line(c, l) = &op {
-            if l == "QUIT" {
+        if let Op::Line(c, l0) = &op {
+            // (without a client-supplied ':source' prefix)
+            let l: &str = if l0.starts_with(':') { l0.splitn(2, ' ').nth(1).unwrap_or("").trim_start() } else { l0.as_str() };
+            if l == "QUIT" || l.starts_with("QUIT ") {
                 if let Some(n) = eng.model.nick_of(*c) {
                     xs.left_by_disconnect.insert(n.to_string());
                 }
